@@ -6,7 +6,7 @@ import json, os, subprocess
 VERIF = os.path.dirname(os.path.dirname(os.path.abspath(__file__)))
 
 TRUST = ("Trusted: Coq 8.16.1 kernel + vm_compute (no native_compute); Print Assumptions of every property theorem: "
-         "closed under the global context (no axioms) - except C15_gate_ieee and C18_f64_ieee, which compare the gate and the PRNG's f64 with Flocq's IEEE-754 formalisation and so depend on the standard library's axioms ClassicalDedekindReals.sig_not_dec, ClassicalDedekindReals.sig_forall_dec, FunctionalExtensionality.functional_extensionality_dep and Classical_Prop.classic; translators tools/gen_src.py, tools/gen_mut.py, tools/gen_seedwit.py (witness data only); extraction (ExtrOcamlBasic only, "
+         "closed under the global context (no axioms) - except C15_gate_ieee, C15_draw_exact and C18_f64_ieee, which compare the gate, its draw and the PRNG's f64 with Flocq's IEEE-754 formalisation and so depend on the standard library's axioms ClassicalDedekindReals.sig_not_dec, ClassicalDedekindReals.sig_forall_dec, FunctionalExtensionality.functional_extensionality_dep and Classical_Prop.classic; translators tools/gen_src.py, tools/gen_mut.py, tools/gen_seedwit.py (witness data only); extraction (ExtrOcamlBasic only, "
          "no Extract Constant/Inductive of our own) + OCaml driver + Rust harness as unverified glue; reference machine "
          "and lexer are my reading of CPython pickletools (table generated from pickletools.opcodes). ")
 
